@@ -505,6 +505,14 @@ def p3_module(e: Engine, rep: Report):
                 ntests += 1
                 rep.evaluations += 1
                 c = n.comparators[0]
+                if isinstance(c, ast.Name):
+                    # a local alias: headers = envelope.headers
+                    ds = [a.value for a in walk_own(f.node)
+                          if isinstance(a, ast.Assign) and any(
+                              isinstance(t, ast.Name) and t.id == c.id
+                              for t in a.targets)]
+                    if len(ds) == 1:
+                        c = ds[0]
                 rep.check(isinstance(c, ast.Attribute) and
                           c.attr == 'headers', 'P3', f.qname,
                           'header presence tested on the message object',
@@ -726,8 +734,15 @@ def p5(e: Engine, rep: Report):
     rctx = Ctx(f, QUEUE)
     rwhere = f.qname
     rep.functions.add(rwhere)
-    g = e.build(rctx, raises=lambda b, n, r: set())
+    g = e.build(rctx, raises=lambda b, n, r: set(),
+                inline=e.inline_same_self(deny=[self_call]), max_depth=2)
     fx = e.facts(g)
+    # a walk that advances in a loop and recurses only for replacements
+    # (tail recursion turned into `while`): position arithmetic, not shape
+    loop_walk = any(isinstance(w, ast.While) and any(
+        isinstance(c, ast.Call) and isinstance(c.func, ast.Attribute) and
+        c.func.attr == 'apply' for c in ast.walk(w))
+        for w in walk_own(f.node))
     rem = [n for n in g.nodes if n.kind == 'call' and
            e.call_name(n) == 'remove']
     ext = [n for n in g.nodes if n.kind == 'call' and
@@ -791,6 +806,14 @@ def p5(e: Engine, rep: Report):
                isinstance(a.right, ast.Constant) and a.right.value == 1 and
                isinstance(a.left, ast.Name) and i < len(params) and
                a.left.id == params[i]]
+        if not inc and loop_walk:
+            rep.unknown('P5', where, 'recursion advances to the next policy',
+                        'the walk advances its position in a `while` loop '
+                        'and recurses with `%s`: whether that is the next '
+                        'policy is arithmetic on the position, not read'
+                        % ', '.join(ast.unparse(a) for a in n.ast.args),
+                        loc=n.loc())
+            continue
         rep.check(bool(inc), 'P5', where,
                   'recursion advances to the next policy',
                   'the walk calls itself with `%s`: a policy is skipped or '
@@ -849,10 +872,17 @@ def p5(e: Engine, rep: Report):
     # the no-output branch continues with the same envelope
     other = [n for n in rec if not any(sc.kind == 'loop'
                                        for sc in n.scopes)]
-    rep.check(both or (bool(other) and all(
+    untouched_ok = both or (bool(other) and all(
         env_arg(n) is not None and ast.unparse(env_arg(n)) == cur and
         retv is not None and holds(fx.at(n), (False, retv))
-        for n in other)), 'P5', where,
+        for n in other))
+    if not untouched_ok and loop_walk:
+        rep.unknown('P5', where, 'an untouched envelope runs through the '
+                    'remaining policies', 'the walk goes on to the next '
+                    'policy by looping, not by calling itself: not read',
+                    loc=f.loc())
+        untouched_ok = True
+    rep.check(untouched_ok, 'P5', where,
         'an untouched envelope runs through the remaining policies',
         'when a policy returns nothing the envelope is not handed to the '
         'later policies', reason='else: recurse(current, i+1)', loc=f.loc())
